@@ -247,7 +247,7 @@ def callString (env : CharEnv) (n : Native) (args : List Value) (spans : List Sp
     (castStr v s1 σ).bind fun s => (castStr p s2 σ).bind fun p =>
     .ok (mkList σ ((StrOps.split s p).map Value.str))
   | .toUpper, [v], [s1] => (castStr v s1 σ).bind fun s => .ok (.str (StrOps.toUpper env s), σ)
-  | .toLower, [v], [s1] => (castStr v s1 σ).bind fun s => .ok (.str (StrOps.toLower env s), σ)
+  | .toLower, [v], [s1] => (castStr v s1 σ).bind fun s => .ok (.str (StrOps.toLowerSigma env env.caseIgn env.cased s), σ)
   | .trim, [v], [s1] => (castStr v s1 σ).bind fun s => .ok (.str (StrOps.trim env.isWs s), σ)
   | .contains, [v, p], [s1, s2] =>
     (castStr v s1 σ).bind fun s => (castStr p s2 σ).bind fun p => .ok (.bool (StrOps.contains s p), σ)
